@@ -273,7 +273,8 @@ package ledger
 //@           !(exists j :: 0 <= j && j <= rangeindex#0 && bytesof(ledger.finalityItems.removedKeys[j]) == c))
 //@   loop 1: modifies elems(keys)
 //@   loop 1: invariant keys == nil || loopfresh(keys)
-//@   loop 1: invariant forall k :: visited(k) <==> (exists i :: 0 <= i && i < len(keys) && keys[i] == k)
+//@   loop 1: invariant forall i :: 0 <= i && i < len(keys) ==> visited(keys[i])
+//@   loop 1: invariant forall k :: visited(k) ==> (exists i :: 0 <= i && i < len(keys) && keys[i] == k)
 //@   loop 1: invariant forall k :: visited(k) ==> has(ledger.finalityItems.updatedItems, k)
 //@   loop 2: modifies treehas, treeval
 //@   loop 2: invariant forall t :: t != ledger.SimpleLedger.tree ==> treehas[t] == old(treehas[t]) && treeval[t] == old(treeval[t])
